@@ -174,8 +174,14 @@ def predicate_identifier(repo, cls):
     if len(body) != 1 or not isinstance(body[0], ast.Return):
         raise Unrecognised(f"{c.name}.descriptive_identifier is not a single return", repo.loc(f))
     expr = body[0].value
+    # class attributes with literal values (looked up along the MRO) are part of what 'cls' is
+    attrs = {"__name__": cls.name}
+    for k in reversed(repo.mro(cls.name)):
+        for an, av in k.class_attrs.items():
+            if isinstance(av, ast.Constant):
+                attrs[an] = av.value
     try:
-        return constfold.fold(expr, {"cls": {"__attrs__": {"__name__": cls.name}}, "self": {"__attrs__": {"__class__": {"__attrs__": {"__name__": cls.name}}}}})
+        return constfold.fold(expr, {"cls": {"__attrs__": attrs}, "self": {"__attrs__": dict(attrs, __class__={"__attrs__": attrs})}})
     except constfold.NotConstant as e:
         raise Unrecognised(f"cannot fold {c.name}.descriptive_identifier for {cls.name}: {e}", repo.loc(f))
 
@@ -187,12 +193,18 @@ def r3_names(repo, report):
     keys = set(constfold.fold(filters).keys())
     preds = repo.subclasses("Predicate")
     report.floor("C04.R3", "predicate classes", len(preds), 8)
+    seen_names = {}
     for p in preds:
         name = predicate_identifier(repo, p)
+        seen_names.setdefault(name, []).append(p.name)
         report.saw(cls=p.name, file=p.module.relpath)
         report.ob("C04.R3", f"{p.name}.descriptive_identifier", name in keys, facts={"identifier": name, "FILTERS": sorted(keys)},
                   expected="identifier is a key of report.FILTERS", loc=repo.loc(p.node), fact_key=name,
                   why=f"reads filtered as '{name}' are counted but never shown in the report" if name not in keys else "")
+    dup = {k: v for k, v in seen_names.items() if len(v) > 1}
+    report.ob("C04.R3", "predicate identifiers are distinct", not dup, facts={"shared": dup}, loc="src/cutadapt/predicates.py",
+              expected="every predicate class reports under its own name (the collector stores filtered[name] = count per step)",
+              why=(f"{list(dup.values())[0]} both report as '{list(dup)[0]}': with both filters in use one count overwrites the other and input != written + filtered" if dup else ""))
     # sinks / filters that report a literal or delegate
     for cls, fn, paired in step_classes(repo):
         if not repo.is_subclass(cls.name, "HasFilterStatistics"):
